@@ -123,7 +123,10 @@ def py_apply(case):
         return case["f"][1]
 
     d = Driven(log)
-    r = d.drive(asynctools.apply(f, *args, **kwargs), case["cut"])
+    try:
+        r = d.drive(asynctools.apply(f, *args, **kwargs), case["cut"])
+    except BaseException as x:  # noqa: B036
+        r = ("exc", x)
     return {"log": log, "out": d.outcome(r)}
 
 
@@ -226,7 +229,10 @@ def py_sync(case):
     for i, (_, cut) in enumerate(case["calls"]):
         del log[:]
         d = Driven(log)
-        r = d.drive(wrapped(i), cut)
+        try:
+            r = d.drive(wrapped(i), cut)
+        except BaseException as x:  # noqa: B036 - the wrapper ran (and failed) when CALLED instead of when awaited
+            r = ("exc", x)
         steps.append([list(log), d.outcome(r)])
     return {"steps": steps}
 
